@@ -7,9 +7,9 @@ META = {
 }
 def queries(tier):
     qs = []
-    # quick: at most 6 distinct items: purge() is cut with an assert-unreachable that the solver discharges (a symbolic weight makes the
-    # zero-weight early return a symbolic branch, after which symex would explore purge()/nth_element on every later update)
-    for (na, nb, ov, mg) in [(3, 0, 0, 0), (6, 0, 0, 0), (3, 3, 0, 1), (4, 3, 1, 1)] + ([(7, 0, 0, 0), (5, 3, 0, 1), (5, 3, 1, 1)] if tier == 'thorough' else []):
-        qs.append(Q(f'fi_a{na}_b{nb}_ov{ov}_m{mg}', 'fi', 'c12_fi.c', defs={'NA': na, 'NB': nb, 'OV': ov, 'MERGE': mg}, unwind=12,
-                    unwindset={'^(harness|verif_mem.*|verif_new.*)$': 40}, timeout=(400 if tier == 'quick' else 1800), native_vectors=200, c_defs=dict({'VERIF_NEW_CAPN': 16, 'VERIF_VEC_CAP': 10}, **({'VERIF_CUT_FI_PURGE': None} if na + nb - ov <= 6 else {})), mem_gb=(10 if tier == 'quick' else 28)))
+    # (NA, NB, overlap, merge, NSYM): concrete distinct items; only the last NSYM weights are symbolic
+    for (na, nb, ov, mg, ns) in [(3, 0, 0, 0, 1), (7, 0, 0, 0, 1), (5, 3, 0, 1, 1), (5, 3, 1, 1, 1), (6, 1, 0, 1, 1)] + ([(7, 0, 0, 0, 2), (5, 3, 0, 1, 2), (4, 4, 2, 1, 2), (6, 3, 0, 1, 1)] if tier == 'thorough' else []):
+        qs.append(Q(f'fi_a{na}_b{nb}_ov{ov}_m{mg}_s{ns}', 'fi', 'c12_fi.c', defs={'NA': na, 'NB': nb, 'OV': ov, 'MERGE': mg, 'NSYM': ns}, unwind=12,
+                    unwindset={'^(harness|weight|verif_mem.*|verif_new.*)$': 40}, timeout=(400 if tier == 'quick' else 1800), native_vectors=200,
+                    c_defs={'VERIF_NEW_CAPN': 16, 'VERIF_VEC_CAP': 10}, mem_gb=(10 if tier == 'quick' else 28)))
     return qs
